@@ -25,12 +25,13 @@ import VerifModel.Base.XR
     * `set` of thresholds / quantiles -> `list` (hash order) is canonicalised as
       ascending order; members are `sorted` in the code;
     * NaN keys: the model compares keys structurally (nan = nan).  This is what CPython
-      does for the singleton `np.nan` that `_clean` returns (identity shortcut of
-      `dict`/`set`/`tuple` comparison); a literal `nan` *token* in a coordinate column
-      creates a fresh NaN object per row and is outside the modelled domain (for the id column
-      the code then loses every row of that location but the first: known finding
-      text-nan-id-values-lost, C09 stream text.nanid).  In a lat / lon / altitude / elev column a
-      nan token is harmless (`np.isnan` → default 0) and is modelled.
+      does for the singleton `np.nan` that `_clean` returns for EVERY missing-value token
+      (-999, NA, …, and — since the repair of finding text-nan-id-values-lost — a literal nan
+      token too): identity shortcut of `dict`/`set`/`tuple` comparison; `Location.__eq__`
+      matches NaN with NaN in id, lat, lon and elev.
+    * a missing-value token in a lat / lon / altitude / elev / location / id / date / hour /
+      unixtime column is a missing coordinate (NaN), as the same entry of a NetCDF file is;
+      the defaults (0; ids 0,1,2,…) are for ABSENT columns only.
 -/
 namespace VerifModel.TextInput
 
@@ -224,15 +225,19 @@ def fieldCells (hdr row : List Word) (p : Word → Bool) (mk : Word → FKey) : 
   (hdr.filter p).filterMap fun w => (getCol hdr row w.name).map fun t => (mk w, cleanTok t)
 
 /-- `unixtime` of a row: date (+ hour) column, else unixtime column, else the default 0;
-`none` = `int()` / `datetime()` raised -/
+a missing-value token in the date (or hour) column is a missing time, NaN, exactly as a missing value
+in the unixtime column is; `none` = `int()` / `datetime()` raised (a date that is a number but not a
+calendar day) -/
 def rowTime (col : List Char → Option Tok) : Option XR :=
   match col sDate with
   | some tk =>
+    let add := match col sHour with | some h => cleanTok h * XR.fin 3600 | none => XR.fin 0
+    if (cleanTok tk).isNan || add.isNan then some XR.nan else
     match dateToUnix (cleanTok tk) with
     | none => none
     | some ut =>
       match col sHour with
-      | some h => some (XR.fin ut + cleanTok h * XR.fin 3600)
+      | some _ => some (XR.fin ut + add)
       | none => some (XR.fin ut)
   | none =>
     match col sUnixtime with
@@ -247,13 +252,15 @@ def rowId (col : List Char → Option Tok) : XR :=
   | some tk => cleanTok tk
   | none => match col sId with | some tk => cleanTok tk | none => XR.nan
 
+/-- lat / lon of a row: the cleaned token of the column (a missing-value token is a missing
+coordinate: NaN); the default 0 only when the file has no such column -/
 def rowMeta (col : List Char → Option Tok) (key : List Char) : XR :=
-  match col key with | some tk => cleanTok tk | none => XR.nan
+  match col key with | some tk => cleanTok tk | none => XR.fin 0
 
 def rowElev (col : List Char → Option Tok) : XR :=
   match col sAltitude with
   | some tk => cleanTok tk
-  | none => match col sElev with | some tk => cleanTok tk | none => XR.nan
+  | none => match col sElev with | some tk => cleanTok tk | none => XR.fin 0
 
 def baseCells (col : List Char → Option Tok) : List (FKey × XR) :=
   [(FKey.obs, sObs), (FKey.fcst, sFcst), (FKey.pit, sPit)].filterMap fun (k, n) =>
@@ -285,13 +292,11 @@ structure Loc where
   elev : XR
   deriving DecidableEq, Repr, Inhabited
 
-def nz (x : XR) : XR := if x.isNan then XR.fin 0 else x
-
 /-- the `locationInfo` lookup / creation of a `Location` for one row -/
 def resolve (locs : List Loc) (r : PRow) : Loc :=
   match (if r.id.isNan then none else locs.find? (fun l => l.id == r.id)) with
   | some l => l
-  | none => ⟨r.id, nz r.lat, nz r.lon, nz r.elev⟩
+  | none => ⟨r.id, r.lat, r.lon, r.elev⟩
 
 def addLoc (locs : List Loc) (l : Loc) : List Loc := if l ∈ locs then locs else locs ++ [l]
 
@@ -454,17 +459,11 @@ def Parsed.quantiles (P : Parsed) : List XR :=
 def Parsed.members (P : Parsed) : List XR :=
   sortDedup (P.dict.filterMap fun p => match p.1.f with | .ens v => some v | _ => none)
 
-/-- the `maxLocationId` loop -/
-def maxId (locs : List Loc) : XR :=
-  locs.foldl (fun m l => if m.isNan then l.id else if XR.lt m l.id then l.id else m) .nan
-
-/-- ids after the assignment loop, in the order of `locs` -/
-def assignGo (c : XR) : List Loc → List XR
-  | [] => []
-  | l :: ls => if l.id.isNan then c :: assignGo (c + XR.fin 1) ls else l.id :: assignGo c ls
-
-def assignIds (locs : List Loc) : List XR :=
-  let m := maxId locs
-  assignGo (if m.isNan then XR.fin 0 else m + XR.fin 1) locs
+/-- ids after the numbering at the end of `Text.__init__`: a file WITHOUT a location / id column has
+its locations numbered 0, 1, 2, … (in the order of `locs`); with an id column the ids are those of the
+file — a missing id token stays NaN (as the same entry of a NetCDF file does), nothing is invented -/
+def assignIds (hasId : Bool) (locs : List Loc) : List XR :=
+  if hasId then locs.map (·.id)
+  else (List.range locs.length).map (fun (i : Nat) => XR.fin (i : Rat))
 
 end VerifModel.TextInput
